@@ -133,4 +133,104 @@ level, rows of the previous level above the threshold survive — N = 10, p0 = 0
 example : ∃ v ∈ nextBuffer 3 [-5, -2, 1, 2, 3, 4, 5, 6, 7, 8] [[-5, -6], [-2, -2], [1, 0]], v > 1 := by
   decide
 
+/-! ### the returned probability -/
+
+theorem pf_nil (a b N : Nat) : pf a b N [] = (1, 1) := rfl
+
+theorem pf_cons (a b N : Nat) (lv : Level) (t : List Level) :
+    pf a b N (lv :: t) = match lv.prob with
+      | none => (a * (pf a b N t).1, b * (pf a b N t).2)
+      | some k => (k * (pf a b N t).1, N * (pf a b N t).2) := rfl
+
+/-- a level either stored `p0` and has a positive threshold, or stored its failure fraction and has threshold `0` -/
+theorem levelOf_cases (nc : Nat) (buf : List Int) :
+    ((levelOf nc buf).prob = none ∧ 0 < (levelOf nc buf).threshold) ∨
+    ((levelOf nc buf).prob.isSome = true ∧ (levelOf nc buf).threshold = 0) := by
+  unfold levelOf
+  simp only []
+  split
+  · right; exact ⟨rfl, rfl⟩
+  · left; refine ⟨rfl, ?_⟩; simp only []; omega
+
+/-- levels that all stored `p0` contribute `p0 ^ m` -/
+theorem pf_all_p0 (a b N : Nat) (levels : List Level) (h : ∀ lv ∈ levels, lv.prob = none) :
+    pf a b N levels = (a ^ levels.length, b ^ levels.length) := by
+  induction levels with
+  | nil => rfl
+  | cons lv t ih =>
+    rw [pf_cons, h lv (List.mem_cons_self), ih (fun l hl => h l (List.mem_cons_of_mem _ hl))]
+    simp [Nat.pow_succ, Nat.mul_comm]
+
+/-- **shape of a run**: every level before the last stored `p0` and has a positive threshold; the loop stops
+at the first level whose threshold is `0` (which stored its failure fraction) -/
+theorem run_shape (nc : Nat) : ∀ (fuel maxSub : Nat) (buf : List Int) (oracle : List (List (List Int))) (init : List Level) (last : Level),
+    run nc maxSub fuel buf oracle = init ++ [last] → ∀ lv ∈ init, lv.prob = none ∧ 0 < lv.threshold := by
+  intro fuel
+  induction fuel with
+  | zero => intro maxSub buf oracle init last h; simp [run] at h
+  | succ f ih =>
+    intro maxSub buf oracle init last h lv hlv
+    unfold run at h
+    split at h
+    · simp at h
+    · simp only [] at h
+      split at h
+      · -- the loop stops here: one level
+        cases init with
+        | nil => cases hlv
+        | cons x t =>
+          have := congrArg List.length h
+          simp at this
+      · rename_i hstop
+        cases oracle with
+        | nil =>
+          cases init with
+          | nil => cases hlv
+          | cons x t =>
+            have := congrArg List.length h
+            simp at this
+        | cons chains rest =>
+          simp only [] at h
+          cases init with
+          | nil =>
+            have := congrArg List.length h
+            simp at this
+            cases hlv
+          | cons x t =>
+            simp only [List.cons_append, List.cons.injEq] at h
+            obtain ⟨hx, ht⟩ := h
+            rcases List.mem_cons.mp hlv with rfl | hmem
+            · -- the level just computed did not stop the loop
+              rw [← hx]
+              rcases levelOf_cases nc buf with hc | hc
+              · exact hc
+              · exfalso; apply hstop; exact ⟨by rw [hc.2]; exact Int.le_refl 0, hc.1⟩
+            · exact ih _ _ _ t last ht lv hmem
+
+/-- **pf clause**: when the last level reached the zero threshold with `k` of its `N` samples in the failure
+set, the returned probability is `p0 ^ (m - 1) · k / N` for `m` levels -/
+theorem C13_pf_product (nc fuel maxSub : Nat) (buf : List Int) (oracle : List (List (List Int))) (a b N : Nat)
+    (init : List Level) (last : Level) (k : Nat)
+    (hrun : run nc maxSub fuel buf oracle = init ++ [last]) (hlast : last.prob = some k) :
+    pf a b N (run nc maxSub fuel buf oracle) = (a ^ init.length * k, b ^ init.length * N) := by
+  rw [hrun]
+  have hinit := fun lv h => (run_shape nc fuel maxSub buf oracle init last hrun lv h).1
+  clear hrun
+  induction init with
+  | nil => simp [pf_cons, hlast, pf_nil]
+  | cons lv t ih =>
+    rw [List.cons_append, pf_cons, hinit lv (List.mem_cons_self), ih (fun l hl => hinit l (List.mem_cons_of_mem _ hl))]
+    simp [Nat.pow_succ, Nat.mul_comm, Nat.mul_left_comm]
+
+/-- … hence within `[0, 1]` -/
+theorem C13_pf_le_one (nc fuel maxSub : Nat) (buf : List Int) (oracle : List (List (List Int))) (a b N : Nat)
+    (init : List Level) (last : Level) (k : Nat)
+    (hrun : run nc maxSub fuel buf oracle = init ++ [last]) (hlast : last.prob = some k) (hab : a ≤ b) (hk : k ≤ N) :
+    (pf a b N (run nc maxSub fuel buf oracle)).1 ≤ (pf a b N (run nc maxSub fuel buf oracle)).2 := by
+  rw [C13_pf_product nc fuel maxSub buf oracle a b N init last k hrun hlast]
+  exact C13_pf_in_unit a b init.length k N hab hk
+
+/-- non-vacuity: `N = 4`, `p0 = 1/2`: first level threshold 1, second level reaches 0 with 3 failures: pf = 1/2 · 3/4 -/
+example : pf 1 2 4 (run 2 5 6 [3, 1, 0, 2] [[[-1], [0]]]) = (3, 8) := by decide
+
 end FF
